@@ -27,12 +27,12 @@ ASSUMPTIONS = [
 
 class HeadersModel:
     def clear(self):
-        self.fields = ()
+        self.pairs = ()
 
     def add(self, *args):
         if len(args) != 2:
             raise TypeError("MultiDict.add() takes exactly 2 positional arguments")
-        self.fields = self.fields + ((args[0], args[1]),)
+        self.pairs = self.pairs + ((args[0], args[1]),)
 
 
 class MessageModel:
@@ -86,12 +86,12 @@ def snapshot_of(new, f):
     d = {}
     for k in REQ_FIELDS:
         d["req_" + k] = getattr(f.request, k)
-    d["req_headers"] = f.request.headers.fields
-    d["req_trailers"] = None if isnone(f.request.trailers) else f.request.trailers.fields
+    d["req_headers"] = f.request.headers.pairs
+    d["req_trailers"] = None if isnone(f.request.trailers) else f.request.trailers.pairs
     for k in RESP_FIELDS:
         d["resp_" + k] = getattr(f.response, k)
-    d["resp_headers"] = f.response.headers.fields
-    d["resp_trailers"] = None if isnone(f.response.trailers) else f.response.trailers.fields
+    d["resp_headers"] = f.response.headers.pairs
+    d["resp_trailers"] = None if isnone(f.response.trailers) else f.response.trailers.pairs
     d["marked"] = f.marked
     d["comment"] = f.comment
     d["backup"] = f._backup
@@ -101,11 +101,11 @@ def snapshot_of(new, f):
 def restore_from(new_headers, f, s):
     for k in REQ_FIELDS:
         setattr(f.request, k, getattr(s, "req_" + k))
-    f.request.headers.fields = s.req_headers
+    f.request.headers.pairs = s.req_headers
     f.request.trailers = None if isnone(s.req_trailers) else new_headers(s.req_trailers)
     for k in RESP_FIELDS:
         setattr(f.response, k, getattr(s, "resp_" + k))
-    f.response.headers.fields = s.resp_headers
+    f.response.headers.pairs = s.resp_headers
     f.response.trailers = None if isnone(s.resp_trailers) else new_headers(s.resp_trailers)
     f.marked = s.marked
     f.comment = s.comment
@@ -123,7 +123,7 @@ def _native_get_state(f):
 def _native_set_state(f, s):
     def nh(fields):
         h = HeadersModel()
-        h.fields = fields
+        h.pairs = fields
         return h
     restore_from(nh, f, s)
 
@@ -139,14 +139,14 @@ def install_state_summaries(vc):
         req, resp = f.fields["request"], f.fields["response"]
         for k in REQ_FIELDS:
             d["req_" + k] = req.fields[k]
-        d["req_headers"] = req.fields["headers"].fields["fields"]
+        d["req_headers"] = req.fields["headers"].fields["pairs"]
         t = v.resolve(req.fields["trailers"])
-        d["req_trailers"] = NONE if isnone(t) else t.fields["fields"]
+        d["req_trailers"] = NONE if isnone(t) else t.fields["pairs"]
         for k in RESP_FIELDS:
             d["resp_" + k] = resp.fields[k]
-        d["resp_headers"] = resp.fields["headers"].fields["fields"]
+        d["resp_headers"] = resp.fields["headers"].fields["pairs"]
         t = v.resolve(resp.fields["trailers"])
-        d["resp_trailers"] = NONE if isnone(t) else t.fields["fields"]
+        d["resp_trailers"] = NONE if isnone(t) else t.fields["pairs"]
         d["marked"], d["comment"], d["backup"] = f.fields["marked"], f.fields["comment"], f.fields["_backup"]
         return v.new(M + "Snapshot", **d)
 
@@ -157,25 +157,25 @@ def install_state_summaries(vc):
         req, resp = f.fields["request"], f.fields["response"]
         for k in REQ_FIELDS:
             req.fields[k] = s.fields["req_" + k]
-        req.fields["headers"].fields["fields"] = s.fields["req_headers"]
+        req.fields["headers"].fields["pairs"] = s.fields["req_headers"]
         t = v.resolve(s.fields["req_trailers"])
-        req.fields["trailers"] = NONE if isnone(t) else v.new(M + "HeadersModel", fields=t)
+        req.fields["trailers"] = NONE if isnone(t) else v.new(M + "HeadersModel", pairs=t)
         for k in RESP_FIELDS:
             resp.fields[k] = s.fields["resp_" + k]
-        resp.fields["headers"].fields["fields"] = s.fields["resp_headers"]
+        resp.fields["headers"].fields["pairs"] = s.fields["resp_headers"]
         t = v.resolve(s.fields["resp_trailers"])
-        resp.fields["trailers"] = NONE if isnone(t) else v.new(M + "HeadersModel", fields=t)
+        resp.fields["trailers"] = NONE if isnone(t) else v.new(M + "HeadersModel", pairs=t)
         f.fields["marked"], f.fields["comment"], f.fields["_backup"] = s.fields["marked"], s.fields["comment"], s.fields["backup"]
         return NONE
 
     vc.summary(M + "FlowModel.get_state", get_state)
     vc.summary(M + "FlowModel.set_state", set_state)
     # `request.trailers = mitmproxy.http.Headers()` creates the same Headers model the flow already uses
-    vc.summary("mitmproxy.http:Headers", lambda v, *a, **k: v.new(M + "HeadersModel", fields=()))
+    vc.summary("mitmproxy.http:Headers", lambda v, *a, **k: v.new(M + "HeadersModel", pairs=()))
 
 
 def mk_headers(vc, tag, n=1):
-    return vc.new(M + "HeadersModel", fields=tuple((vc.sym_bytes(f"{tag}_k{i}"), vc.sym_bytes(f"{tag}_v{i}")) for i in range(n)))
+    return vc.new(M + "HeadersModel", pairs=tuple((vc.sym_bytes(f"{tag}_k{i}"), vc.sym_bytes(f"{tag}_v{i}")) for i in range(n)))
 
 
 def mk_state(vc, tag, trailers):
@@ -194,12 +194,12 @@ def observe(vc, f):
     out = []
     for k in REQ_FIELDS:
         out.append(("request." + k, getattr(f.request, k)))
-    out.append(("request.headers", f.request.headers.fields))
-    out.append(("request.trailers", None if isnone(f.request.trailers) else f.request.trailers.fields))
+    out.append(("request.headers", f.request.headers.pairs))
+    out.append(("request.trailers", None if isnone(f.request.trailers) else f.request.trailers.pairs))
     for k in RESP_FIELDS:
         out.append(("response." + k, getattr(f.response, k)))
-    out.append(("response.headers", f.response.headers.fields))
-    out.append(("response.trailers", None if isnone(f.response.trailers) else f.response.trailers.fields))
+    out.append(("response.headers", f.response.headers.pairs))
+    out.append(("response.trailers", None if isnone(f.response.trailers) else f.response.trailers.pairs))
     out.append(("marked", f.marked))
     out.append(("comment", f.comment))
     return out
@@ -303,7 +303,12 @@ def spec_apply(vc, pre, vals):
     return post
 
 
-@scenario("FlowHandler.put", functions=[FH + ".put", "mitmproxy.flow:Flow.backup", "mitmproxy.flow:Flow.revert"])
+# int(str) is modelled with uninterpreted acceptance/value functions for non-digit strings: these candidates give models that
+# agree with CPython (only used for counter-model replay and conformance sampling, never for proving)
+INT_TEXTS = [{"d_port_s": a, "d_code_s": b} for a, b in (("8081", "404"), ("x", "x"), (" 81", "+404"), ("", ""), ("1_0", "4_04"), ("-", "0x1"))]
+
+
+@scenario("FlowHandler.put", functions=[FH + ".put", "mitmproxy.flow:Flow.backup", "mitmproxy.flow:Flow.revert"], candidates=INT_TEXTS)
 def s_put(vc):
     import mitmproxy.tools.web.app as webapp
     name = vc.case("document", list(DOCS))
@@ -333,6 +338,9 @@ def s_put(vc):
             if want[field] is not None or field.endswith("trailers"):
                 vc.ensure(f"ok.applied[{field}]", same(vc, got, want[field]))
         vc.ensure("ok.view_updated_once", len(updated) == 1)
+        if len(updated) == 1:
+            arg = updated[0].items if vc.mode == "sym" else updated[0]
+            vc.ensure("ok.view_told_about_this_flow", len(arg) == 1 and arg[0] is flow)
         vc.ensure("ok.has_backup_for_revert", not isnone(flow._backup))
         if not prior_backup:
             bk = observe_snapshot(vc, flow._backup)
@@ -360,3 +368,160 @@ def observe_snapshot(vc, s):
     d["response.headers"], d["response.trailers"] = s.resp_headers, s.resp_trailers
     d["marked"], d["comment"] = s.marked, s.comment
     return d
+
+
+# =====================================================================================================================
+# T2 (bounded): the real tornado Application, the real FlowHandler (auth wrapper, JSON parsing, view lookup) and real flows
+
+MENU = [
+    # (label, section, key, value, valid)
+    ("req.method", "request", "method", "PUT", True),
+    ("req.port", "request", "port", 81, True),
+    ("req.port:digits", "request", "port", "8081", True),
+    ("req.path", "request", "path", "/new", True),
+    ("req.host", "request", "host", "example.org", True),
+    ("req.headers", "request", "headers", [["a", "b"], ["c", "d"]], True),
+    ("req.trailers", "request", "trailers", [["t", "u"]], True),
+    ("req.content", "request", "content", "hello", True),
+    ("resp.code", "response", "code", 404, True),
+    ("resp.reason", "response", "reason", "Nope", True),
+    ("resp.headers", "response", "headers", [["x", "y"]], True),
+    ("resp.content", "response", "content", "body", True),
+    ("marked", "", "marked", ":red_circle:", True),
+    ("comment", "", "comment", "edited", True),
+    ("req.unknown", "request", "colour", "blue", False),
+    ("resp.unknown", "response", "colour", "blue", False),
+    ("top.unknown", "", "colour", "blue", False),
+    ("req.port:x", "request", "port", "x", False),
+    ("req.port:null", "request", "port", None, False),
+    ("resp.code:x", "response", "code", "x", False),
+    ("req.headers:arity1", "request", "headers", [["a", "b"], ["c"]], False),
+    ("resp.headers:arity3", "response", "headers", [["a", "b", "c"]], False),
+    ("req.trailers:arity1", "request", "trailers", [["t"]], False),
+    ("req.content:int", "request", "content", 5, False),
+    ("req.method:surrogate", "request", "method", "\ud800", False),
+    ("req.host:surrogate", "request", "host", "a\ud800.example", None),   # validity decided by the real setter (200 or error)
+]
+
+
+def _doc_of(entries):
+    doc = {}
+    for label, sec, key, val, ok in entries:
+        if sec == "":
+            if key in doc:
+                return None
+            doc[key] = val
+        else:
+            d = doc.setdefault(sec, {})
+            if not isinstance(d, dict) or key in d:
+                return None
+            d[key] = val
+    return doc
+
+
+def _core(state):
+    s = dict(state)
+    s.pop("backup", None)
+    return s
+
+
+def bounded(tier, seed):
+    import itertools
+    from mitmproxy.test import tflow
+    from props.webui import WebApp
+
+    b = Bounded()
+    depth = 2 if tier == "quick" else 3
+    b.rule = ("PUT /flows/<id> on the real mitmweb Application with edit documents built from ordered selections of a 26-entry menu of valid and invalid field edits "
+              "(unknown field at each level, port 'x'/null, status code 'x', header/trailer lists of wrong arity, non-string content, lone-surrogate method/host) x "
+              "{fresh flow, flow with an earlier successful edit}; checked: valid document => 200 and every field applied; rejected document (status >= 400) => "
+              "flow state (get_state without the backup slot) exactly as before the request; distinct = (entries in order, prior edit); non-trivial = document mixes valid and invalid entries")
+    b.bound = f"all ordered selections of <= {depth} menu entries (documents with a repeated key are skipped) + documents whose section entry is not an object"
+    b.exhaustive = True
+    w = WebApp.start(xsrf=False)
+    try:
+        def fresh(prior):
+            f = tflow.tflow(resp=True)
+            f.id = "42"
+            w.view.clear()
+            w.view.add([f])
+            if prior:
+                r = w.request("PUT", "/flows/42", json_body={"request": {"method": "ONE"}, "comment": "first"})
+                assert r.code == 200, r.code
+            return f
+
+        def run(entries, doc, prior, key):
+            f = fresh(prior)
+            before = _core(f.get_state())
+            r = w.request("PUT", "/flows/42", json_body=doc)
+            after = _core(f.get_state())
+            labels = [e[0] for e in entries]
+            inp = {"entries": labels, "document": doc, "prior_edit": prior}
+            all_valid = entries and all(e[4] is True for e in entries)
+            any_invalid = any(e[4] is False for e in entries)
+            b.case(key, nontrivial=any_invalid and any(e[4] for e in entries))
+            if all_valid and r.code != 200:
+                b.fail("put.valid_document_accepted", inp, f"status {r.code}")
+            if any_invalid and r.code < 400:
+                b.fail("put.invalid_document_rejected", inp, f"status {r.code}")
+            if r.code >= 400:
+                if after != before:
+                    diff = sorted(k for k in before if before[k] != after.get(k))
+                    if r.code >= 500:
+                        b.fail("put.atomic.non_api_error", inp, f"status {r.code}; changed: {diff}")
+                    elif prior:
+                        b.fail("put.atomic.after_prior_edit", inp, f"status {r.code}; changed: {diff}; method now {f.request.method!r}, comment {f.comment!r}")
+                    else:
+                        b.fail("put.atomic.api_error", inp, f"status {r.code}; changed: {diff}")
+                if w.view.get_by_id("42") is not f:
+                    b.fail("put.flow_identity", inp, "flow replaced")
+            elif r.code == 200:
+                # every requested field holds the requested value
+                for label, sec, k, val, ok in entries:
+                    got = _read_field(f, sec, k)
+                    want = int(val) if k in ("port", "code") else val
+                    if k in ("headers", "trailers"):
+                        want = [tuple(x) for x in val]
+                    if label == "req.host:surrogate":
+                        continue
+                    if got != want:
+                        b.fail("put.applies_all", inp, f"{sec}.{k}: got {got!r}, want {want!r}")
+
+        for n in range(1, depth + 1):
+            for entries in itertools.permutations(MENU, n):
+                doc = _doc_of(entries)
+                if doc is None:
+                    continue
+                for prior in (False, True):
+                    run(entries, doc, prior, (tuple(e[0] for e in entries), prior))
+        for doc in ({"request": 5}, {"response": "x"}, {"request": {"method": "PUT"}, "response": None}, {"request": ["method"]}, {"marked": ":red_circle:", "request": 7}):
+            for prior in (False, True):
+                f = fresh(prior)
+                before = _core(f.get_state())
+                r = w.request("PUT", "/flows/42", json_body=doc)
+                b.case(("non-object", json.dumps(doc), prior))
+                if r.code < 400:
+                    b.fail("put.invalid_document_rejected", {"document": doc, "prior_edit": prior}, f"status {r.code}")
+                elif _core(f.get_state()) != before:
+                    b.fail("put.atomic.non_api_error" if r.code >= 500 else "put.atomic.after_prior_edit" if prior else "put.atomic.api_error", {"document": doc, "prior_edit": prior}, f"status {r.code}")
+    finally:
+        w.stop()
+    return b
+
+
+import json
+
+
+def _read_field(f, sec, k):
+    if sec == "":
+        return getattr(f, k)
+    m = getattr(f, sec)
+    if k == "code":
+        return m.status_code
+    if k == "content":
+        return m.text
+    if k in ("headers", "trailers"):
+        h = getattr(m, k)
+        # setting the content maintains Content-Length: not part of the requested header list
+        return [(a.decode(), c.decode()) for a, c in h.fields if a.lower() != b"content-length"]
+    return getattr(m, k)
